@@ -74,9 +74,6 @@ Proof. red_bounds. rewrite Qfloor_plus_1, floor_le_iff. lia. Qed.
 Lemma tighten_adjacent c s : bp_lower (bounds_int c s) = bp_upper (bounds_int c s) + 1.
 Proof. destruct s; red_bounds; [rewrite Qceiling_minus_1 | rewrite Qfloor_plus_1]; lia. Qed.
 
-(* LASolver::addBound: atom  c <= s  with s = v (negated = false) or s = -v (negated = true) *)
-Definition atom_holds (c : Q) (negated : bool) (v : Z) : Prop :=
-  (c <= inject_Z (if negated then - v else v))%Q.
 
 Lemma add_bound_pos c negated v : atom_holds c negated v <-> bound_holds (fst (add_bound c negated)) v.
 Proof.
